@@ -9,6 +9,11 @@ import Gonuts.Lemmas.MintInv
 -/
 namespace Gonuts.Model.Mint
 
+theorem finishMem_db (p : Prog (Res × Option Mem)) (w : World) : (finishMem p w).2.db = w.db := by
+  unfold finishMem; split <;> rfl
+
+theorem stepWorld_db (c : CSess) (f : Bool) : (stepWorld c f).db = c.s.w.db := by unfold stepWorld; split <;> rfl
+
 theorem stepThread_db {Q : DB → Prop} (h : DbInv Q) (c : CSess) (tid : Nat) (f : Bool) (hc : Q c.s.w.db) :
     Q (stepThread c tid f).1.s.w.db := by
   unfold stepThread
@@ -16,21 +21,22 @@ theorem stepThread_db {Q : DB → Prop} (h : DbInv Q) (c : CSess) (tid : Nat) (f
   · exact hc
   · exact hc
   · rename_i e k _
-    simp only []
-    have hw : Q (if f = true then { c.s.w with faultAt := some c.s.w.nDb } else c.s.w).db := by split <;> exact hc
-    have := h.effInv (if f = true then { c.s.w with faultAt := some c.s.w.nDb } else c.s.w) e hw
-    split <;> exact this
+    show Q (finishMem _ _).2.db
+    rw [finishMem_db]
+    exact h.effInv (stepWorld c f) e (by show Q (stepWorld c f).db; rw [stepWorld_db]; exact hc)
 
 theorem spawn_db {Q : DB → Prop} (c c' : CSess) (tid : Nat) (op : Op) (h : spawn c tid op = some c') (hc : Q c.s.w.db) :
     Q c'.s.w.db := by
   unfold spawn at h
   split at h
+  · cases h
   · split at h
+    · split at h
+      · simp only [Option.map_eq_some_iff] at h
+        obtain ⟨_, _, rfl⟩ := h; exact hc
+      · cases h
     · simp only [Option.map_eq_some_iff] at h
       obtain ⟨_, _, rfl⟩ := h; exact hc
-    · cases h
-  · simp only [Option.map_eq_some_iff] at h
-    obtain ⟨_, _, rfl⟩ := h; exact hc
 
 theorem applyCEvt_db {Q : DB → Prop} (h : DbInv Q) (c : CSess) (e : CEvt) (hc : Q c.s.w.db) : Q (applyCEvt c e).s.w.db := by
   cases e with
